@@ -186,7 +186,10 @@ CivilInstant(y, mo, d, h, mi, sec, ms, off) ==
   ELSE Instant(DaysFromCivil(y, mo, d), ((h * 60 + mi) * 60 + sec) * 1000 + ms - off * 60000)
 \* ECMAScript "Date Time String Format" (ECMA-262 21.4.1.32), date-time forms WITH an explicit offset:
 \*   YYYY-MM-DDTHH:mm[:ss[.sss]](Z|+HH:mm|-HH:mm)   with YYYY also as +YYYYYY / -YYYYYY
-\* Anything else (date-only forms, local time, implementation-specific fallbacks) -> undef.
+\* A string that does not START like a date-time of that format (date-only forms, other formats: implementation-
+\* specific fallbacks) or that ends after the time (local time) or has a fraction that is not three digits -> undef.
+\* A string that starts like one and then does NOT continue as Z or as sign, two digits, ':', two digits (e.g.
+\* "-03:-30", "+5:30", "+0530") is no sentence of the only format every implementation must read: invalid.
 DateOfString(s) ==
   LET n == Len(s)
       signed == n >= 1 /\ s[1] \in {43, 45}
@@ -214,7 +217,9 @@ DateOfString(s) ==
         THEN IF D2(s, q3 + 1) > 23 \/ D2(s, q3 + 4) > 59 THEN BadI
              ELSE CivilInstant(y, D2(s, p + 1), D2(s, p + 4), D2(s, p + 7), D2(s, p + 10), sec, ms,
                                (IF s[q3] = 45 THEN -1 ELSE 1) * (D2(s, q3 + 1) * 60 + D2(s, q3 + 4)))
-   ELSE BadU
+   ELSE IF q3 > n THEN BadU                                                  \* no offset: local time
+   ELSE IF s[q3] = 46 /\ q3 + 1 <= n /\ IsDigit(s[q3 + 1]) THEN BadU          \* a fraction of 1, 2 or more than 3 digits
+   ELSE BadI
 \* new Date(<integer milliseconds since the epoch>): long division of the digit string by 86 400 000
 RECURSIVE VLDivDay(_, _, _, _)
 VLDivDay(ds, i, q, r) == IF i > Len(ds) THEN <<q, r>>
@@ -598,8 +603,9 @@ DescNonFinite(d) ==
 =============================================================================
    Part 2.  Implementation-shaped model: showInJS / showInJSON (renderer.go), jsStringEscape
    (escapers.go), showTimeInJS, parseTagValue, isEmptyValue - transcribed branch by branch,
-   AS FOUND.  The parameter fix = TRUE transcribes the proposed fix of the non-finite floats instead
-   (JavaScript: NaN, Infinity, -Infinity; JSON: null).
+   AS FOUND at 55cee7b for fix = FALSE; fix = TRUE transcribes the tree after the four fixes this family
+   led to: 2f130f5 non-finite floats (JavaScript: NaN, Infinity, -Infinity; JSON: null), a089625 nil []byte ->
+   null in JSON, cad68cd RFC3339Nano in JSON, afb952f sign of the zone offset in the Date literal.
    ===================================================================================== *)
 HexChar(n) == IF n < 10 THEN 48 + n ELSE 87 + n
 U4(c) == <<92, 117>> \o <<HexChar(c \div 4096), HexChar((c \div 256) % 16), HexChar((c \div 16) % 16), HexChar(c % 16)>>
@@ -628,16 +634,17 @@ MFormatFloat(txt) ==
        ELSE IF p > 0 THEN sign \o SubSeq(ds, 1, p) \o <<46>> \o SubSeq(ds, p + 1, n)
        ELSE sign \o <<48, 46>> \o Zeros(0 - p) \o ds
 \* showTimeInJS
-MTimeJS(d) ==
+MTimeJS(d, fix) ==
   LET ms == d.ns \div 1000000
       ytxt == IF d.y < 0 \/ d.y > 9999 THEN <<IF d.y < 0 THEN 45 ELSE 43>> \o Pad(IF d.y < 0 THEN 0 - d.y ELSE d.y, 6) ELSE Pad(d.y, 4)
       core == ytxt \o <<45>> \o Pad(d.mo, 2) \o <<45>> \o Pad(d.d, 2) \o <<84>> \o Pad(d.h, 2) \o <<58>> \o Pad(d.mi, 2)
               \o <<58>> \o Pad(d.sec, 2) \o <<46>> \o Pad(ms, 3)
-      \* zone := offset / 60; h, m := zone/60, zone%60 (Go: truncated); if m < 0 { m = -m }; "%+0.2d:%0.2d"
       a == IF d.off < 0 THEN 0 - d.off ELSE d.off
+      \* as found: zone := offset / 60; h, m := zone/60, zone%60 (Go: truncated); if m < 0 { m = -m }; "%+0.2d:%0.2d"
       h == IF d.off < 0 THEN 0 - (a \div 60) ELSE a \div 60
-      m == a % 60
-      ztxt == IF d.utc = 1 THEN <<90>> ELSE <<IF h < 0 THEN 45 ELSE 43>> \o Pad(IF h < 0 THEN 0 - h ELSE h, 2) \o <<58>> \o Pad(m, 2)
+      \* (afb952f): sign := '+'; if zone < 0 { sign, zone = '-', -zone }; h, m := zone/60, zone%60; "%c%0.2d:%0.2d"
+      neg == IF fix THEN d.off < 0 ELSE h < 0
+      ztxt == IF d.utc = 1 THEN <<90>> ELSE <<IF neg THEN 45 ELSE 43>> \o Pad(a \div 60, 2) \o <<58>> \o Pad(a % 60, 2)
   IN <<110,101,119,32,68,97,116,101,40,34>> \o core \o ztxt \o <<34, 41>>
 \* parseTagValue
 MParseTag(tag) == LET parts == TagParts(tag) IN [name |-> parts[1], omitempty |-> HasOpt(parts, oOmitEmpty)]
@@ -662,8 +669,9 @@ Model(d, L, fix) ==
                         THEN (IF L = "json" THEN wNull ELSE IF d.txt = txtNaN THEN wNaN ELSE IF d.txt = txtPInf THEN wInfinity ELSE <<45>> \o wInfinity)
                         ELSE MFormatFloat(d.txt)
     [] d.k = "str" -> MQuoted(d.s)
-    [] d.k = "bytes" -> <<34>> \o Base64(d.s) \o <<34>>                                   \* escapeBytes, also for a nil []byte
-    [] d.k = "time" -> IF L = "js" THEN MTimeJS(d) ELSE <<34>> \o RFC3339Text(d, FALSE) \o <<34>>   \* v.Format(time.RFC3339)
+    [] d.k = "bytes" -> IF fix /\ L = "json" /\ d.nil = 1 THEN wNull                      \* (a089625) if b == nil { s = "null" }
+                        ELSE <<34>> \o Base64(d.s) \o <<34>>                              \* escapeBytes, as found also for a nil []byte
+    [] d.k = "time" -> IF L = "js" THEN MTimeJS(d, fix) ELSE <<34>> \o RFC3339Text(d, fix) \o <<34>>   \* v.Format(time.RFC3339), (cad68cd) RFC3339Nano
     [] d.k = "ptr" -> IF d.nil = 1 THEN wNull ELSE Model(d.v, L, fix)
     [] d.k \in {"slice", "array"} ->
          IF d.k = "slice" /\ d.nil = 1 THEN wNull
